@@ -229,6 +229,49 @@ aaa.bump()
     "mid": HDR + "\ncount = 7\ndb.Setting = db.Setting + 3\n\ndef bump():\n    global count\n    count = count + 1\n    db.Lock = count\n",
 }
 
+# function names inside one library that are suffixes of each other (the merged program's names carry
+# the module prefix, so label searches by suffix behave differently in the two programs)
+FIXED_SUFFIX_LIB = {
+    "": HDR + """from library import a
+from library import other as b
+
+while True:
+    yield_()
+    db.Setting = a.step(d0.Setting)
+    db.Mode = a.step(2)
+    db.Open = b.update(d1.Setting)
+    db.Lock = b.update(3)
+""",
+    "a": HDR + """
+def bump(v):
+    db.On = v
+
+def prestep(v):
+    return v * 2
+
+def step(v):
+    w = prestep(v)
+    bump(w)
+    bump(w + 1)
+    return w * 3
+""",
+    "other": HDR + """
+def note(v):
+    d2.Setting = v
+
+def reupdate(v):
+    if v > 5:
+        return v
+    return v + 1
+
+def update(v):
+    w = reupdate(v)
+    note(w)
+    note(w + 1)
+    return w - 1
+""",
+}
+
 FIXED_MULTI = {
     "": HDR + """from library import lib0
 from library import lib1 as other
@@ -292,7 +335,7 @@ def run(tier: str) -> int:
     rep.assumptions = ASSUMPTIONS
     known = harness.known_for(PROP)
     n = 150 if tier == "thorough" else 20
-    progs = [("fixed:two_libs", FIXED_MULTI, []), ("fixed:dead_constants", FIXED_DEAD_CONST, []), ("fixed:import_order", FIXED_IMPORT_ORDER, [])]
+    progs = [("fixed:two_libs", FIXED_MULTI, []), ("fixed:dead_constants", FIXED_DEAD_CONST, []), ("fixed:import_order", FIXED_IMPORT_ORDER, []), ("fixed:suffix_names_in_library", FIXED_SUFFIX_LIB, [])]
     for i in range(n):
         seed = harness.seed() * 9973 + i + 1
         srcs, feats = gen_multi(seed)
